@@ -1,167 +1,336 @@
-(* Prototype: RFC 1951 inflate in Gallina (puff.c structure). Design-round experiment. *)
-From Coq Require Import List NArith Lia Bool.
-Import ListNotations.
-Open Scope N_scope.
+(* RFC 1951 DEFLATE decoding, executable Gallina, in the structure of zlib's puff.c,
+   with the accept/reject decisions of Go's compress/flate (the decoder gorilla/websocket uses).
 
-Definition bytes := list N.
+   Definitions only; proofs are in InflateP.v, differential tests in InflateTest.v.
 
-(* ---- bit stream, LSB first ---- *)
+   Conventions:
+   - input is a [bytes]; a byte >= 256 is not a byte and makes [inflate] answer [None];
+   - bits are consumed LSB first inside each byte (RFC 1951 3.1.1);
+   - Huffman codes are read MSB first, one bit at a time, canonical decoding from the
+     per-length counts (puff.c [decode]);
+   - output is accumulated newest-first, so a back-reference costs O(distance + length);
+   - lists are reversed with the linear [rev_append _ []] (stdlib [rev] is quadratic);
+   - every loop runs on fuel derived from the input length: no loop iteration consumes
+     less than one bit, so [S (8 * length input)] iterations always suffice. *)
+Require Import WS.Base.Bytes.
+
+(* ---------- three-valued results ---------- *)
+Inductive res (A:Type) : Type :=
+| Ok (a:A)      (* success *)
+| More          (* input exhausted: Go's io.ErrUnexpectedEOF *)
+| Bad.          (* malformed: Go's flate.CorruptInputError *)
+Arguments Ok {A} a.
+Arguments More {A}.
+Arguments Bad {A}.
+
+Notation "'do' p <- r ; k" :=
+  (match r with Ok p => k | More => More | Bad => Bad end)
+  (at level 200, p pattern, r at level 100, k at level 200, right associativity).
+
+(* ---------- bit reader, LSB first ---------- *)
 Fixpoint byte_bits (k:nat) (b:N) : list bool :=
   match k with O => [] | S k' => N.odd b :: byte_bits k' (N.div2 b) end.
-Fixpoint bits_of (l:bytes) : list bool :=
-  match l with [] => [] | b::r => byte_bits 8 b ++ bits_of r end.
 
-Record bs := { bits : list bool; used : N }.   (* used = number of bits consumed so far *)
+(* [cur] = bits of the current byte not yet consumed (at most 7); [rest] = bytes not yet touched *)
+Record bs := mkbs { cur : list bool; rest : bytes }.
 
-Definition getbit (s:bs) : option (bool * bs) :=
-  match bits s with [] => None | b::r => Some (b, {| bits := r; used := used s + 1 |}) end.
-
-(* read k bits as a number, LSB first *)
-Fixpoint getbits (k:nat) (s:bs) : option (N * bs) :=
-  match k with
-  | O => Some (0, s)
-  | S k' => match getbit s with None => None
-            | Some (b, s1) => match getbits k' s1 with None => None
-                              | Some (v, s2) => Some ((if b then 1 else 0) + 2*v, s2) end end
+Definition getbit (s:bs) : res (bool * bs) :=
+  match cur s with
+  | b :: c => Ok (b, mkbs c (rest s))
+  | [] => match rest s with
+          | [] => More
+          | x :: r => Ok (N.odd x, mkbs (byte_bits 7 (N.div2 x)) r)
+          end
   end.
 
-Fixpoint dropbits (k:nat) (s:bs) : option bs :=
-  match k with O => Some s | S k' => match getbit s with None => None | Some (_, s1) => dropbits k' s1 end end.
+(* read k bits as a number, first bit read = least significant *)
+Fixpoint getbits (k:nat) (s:bs) : res (N * bs) :=
+  match k with
+  | O => Ok (0, s)
+  | S k' => do (b, s1) <- getbit s;
+            do (v, s2) <- getbits k' s1;
+            Ok ((if b:bool then 1 else 0) + 2 * v, s2)
+  end.
 
-Definition align (s:bs) : option bs := dropbits (N.to_nat ((8 - used s mod 8) mod 8)) s.
-
-(* ---- canonical Huffman ---- *)
-(* table: for each length 1..15, count; plus symbols sorted by (length, symbol) *)
-Record huff := { counts : list N (* index 0..15 *); symbols : list N }.
+(* ---------- canonical Huffman codes ---------- *)
+(* counts: number of codes of each length 1..maxlen (trailing zero counts removed);
+   symbols: symbols ordered by (length, symbol) *)
+Record huff := mkhuff { counts : list N; symbols : list N }.
 
 Definition count_len (lens:list N) (l:N) : N := N.of_nat (length (filter (N.eqb l) lens)).
+
 Fixpoint syms_of_len (lens:list N) (l:N) (i:N) : list N :=
-  match lens with [] => [] | x::r => (if x =? l then [i] else []) ++ syms_of_len r l (i+1) end.
-Definition lens15 : list N := map N.of_nat (seq 1 15).
+  match lens with
+  | [] => []
+  | x :: r => if x =? l then i :: syms_of_len r l (i+1) else syms_of_len r l (i+1)
+  end.
+
+Definition lens15 : list N := [1;2;3;4;5;6;7;8;9;10;11;12;13;14;15].
+
+Fixpoint trim0 (l:list N) : list N :=
+  match l with
+  | [] => []
+  | x :: r => match trim0 r with
+              | [] => if x =? 0 then [] else [x]
+              | r' => x :: r'
+              end
+  end.
+
 Definition build (lens:list N) : huff :=
-  {| counts := 0 :: map (count_len lens) lens15;
+  {| counts := trim0 (map (count_len lens) lens15);
      symbols := flat_map (fun l => syms_of_len lens l 0) lens15 |}.
 
-(* over-subscription / completeness check like puff: left = 1; for len: left<<=1; left -= count; <0 => bad *)
-Fixpoint check_counts (cs:list N) (left:N) : option N :=
-  match cs with [] => Some left
-  | c::r => let l2 := 2*left in if l2 <? c then None else check_counts r (l2 - c) end.
-Definition huff_ok (h:huff) : option N := check_counts (tl (counts h)) 1.
-
-Fixpoint decode_go (cs:list N) (code first index:N) (h:huff) (s:bs) : option (N * bs) :=
+(* left := 1; per length: left := 2*left - count; negative = over-subscribed *)
+Fixpoint kraft (cs:list N) (left:N) : option N :=
   match cs with
-  | [] => None
-  | count::r =>
-     match getbit s with None => None
-     | Some (b, s1) =>
-        let code := code + (if b then 1 else 0) in
-        if code <? first + count then
-           match nth_error (symbols h) (N.to_nat (index + (code - first))) with
-           | Some sym => Some (sym, s1) | None => None end
-        else decode_go r (2*code) (2*(first+count)) (index+count) h s1
-     end
+  | [] => Some left
+  | c :: r => let l2 := 2 * left in if l2 <? c then None else kraft r (l2 - c)
   end.
-Definition decode (h:huff) (s:bs) : option (N * bs) := decode_go (tl (counts h)) 0 0 0 h s.
 
-(* ---- tables ---- *)
-Definition lbase : list N := [3;4;5;6;7;8;9;10;11;13;15;17;19;23;27;31;35;43;51;59;67;83;99;115;131;163;195;227;258].
-Definition lext  : list nat := [0;0;0;0;0;0;0;0;1;1;1;1;2;2;2;2;3;3;3;3;4;4;4;4;5;5;5;5;0]%nat.
-Definition dbase : list N := [1;2;3;4;5;7;9;13;17;25;33;49;65;97;129;193;257;385;513;769;1025;1537;2049;3073;4097;6145;8193;12289;16385;24577].
-Definition dext  : list nat := [0;0;0;0;1;1;2;2;3;3;4;4;5;5;6;6;7;7;8;8;9;9;10;10;11;11;12;12;13;13]%nat.
+(* Go's huffmanDecoder.init: accept the empty code (it fails when used), the degenerate
+   single code of length one, and complete codes; reject everything else. *)
+Definition huff_ok (h:huff) : bool :=
+  match counts h with
+  | [] => true
+  | [1] => true
+  | cs => match kraft cs 1 with Some 0 => true | _ => false end
+  end.
 
-(* copy len bytes from distance d; out is reversed output *)
-Fixpoint copy_back (len:nat) (d:nat) (out:bytes) : option bytes :=
-  match len with O => Some out
-  | S l' => match nth_error out (d-1) with None => None | Some b => copy_back l' d (b::out) end end.
+Fixpoint decode_go (cs:list N) (code first index:N) (syms:list N) (s:bs) : res (N * bs) :=
+  match cs with
+  | [] => Bad
+  | count :: r =>
+      do (b, s1) <- getbit s;
+      let code := code + (if b:bool then 1 else 0) in
+      if code <? first + count then
+        match nth_error syms (N.to_nat (index + (code - first))) with
+        | Some sym => Ok (sym, s1)
+        | None => Bad
+        end
+      else decode_go r (2 * code) (2 * (first + count)) (index + count) syms s1
+  end.
 
-(* decode literal/length + distance codes until end of block *)
-Fixpoint codes (fuel:nat) (lh dh:huff) (s:bs) (out:bytes) : option (bs * bytes) :=
-  match fuel with O => None | S f =>
-  match decode lh s with None => None
-  | Some (sym, s1) =>
-     if sym <? 256 then codes f lh dh s1 (sym::out)
-     else if sym =? 256 then Some (s1, out)
-     else let i := N.to_nat (sym - 257) in
-       match nth_error lbase i, nth_error lext i with
-       | Some lb, Some le =>
-         match getbits le s1 with None => None | Some (ev, s2) =>
-         let len := lb + ev in
-         match decode dh s2 with None => None | Some (ds, s3) =>
-         match nth_error dbase (N.to_nat ds), nth_error dext (N.to_nat ds) with
-         | Some db, Some de =>
-            match getbits de s3 with None => None | Some (dv, s4) =>
-            match copy_back (N.to_nat len) (N.to_nat (db + dv)) out with None => None
-            | Some out' => codes f lh dh s4 out' end end
-         | _, _ => None end end end
-       | _, _ => None end
-  end end.
+Definition decode (h:huff) (s:bs) : res (N * bs) := decode_go (counts h) 0 0 0 (symbols h) s.
+
+(* ---------- length / distance tables (RFC 1951 3.2.5): (base, extra bits) ---------- *)
+Definition ltab : list (N * N) :=
+  [(3,0);(4,0);(5,0);(6,0);(7,0);(8,0);(9,0);(10,0);(11,1);(13,1);(15,1);(17,1);
+   (19,2);(23,2);(27,2);(31,2);(35,3);(43,3);(51,3);(59,3);(67,4);(83,4);(99,4);(115,4);
+   (131,5);(163,5);(195,5);(227,5);(258,0)].
+Definition dtab : list (N * N) :=
+  [(1,0);(2,0);(3,0);(4,0);(5,1);(7,1);(9,2);(13,2);(17,3);(25,3);(33,4);(49,4);
+   (65,5);(97,5);(129,6);(193,6);(257,7);(385,7);(513,8);(769,8);(1025,9);(1537,9);
+   (2049,10);(3073,10);(4097,11);(6145,11);(8193,12);(12289,12);(16385,13);(24577,13)].
+
+(* ---------- back references; [out] is the output so far, newest byte first ---------- *)
+(* push [len] bytes cycling through [seg] (oldest first); [cur] is the current position in the cycle *)
+Fixpoint copy_cyc (len:nat) (cur seg out:bytes) : bytes :=
+  match len with
+  | O => out
+  | S l => match cur with
+           | b :: c => copy_cyc l c seg (b :: out)
+           | [] => match seg with
+                   | b :: c => copy_cyc l c seg (b :: out)
+                   | [] => out
+                   end
+           end
+  end.
+
+(* skipn with a binary count: no unary number of the size of the distance is ever built *)
+Fixpoint skip_pos (p:positive) (l:bytes) : bytes :=
+  match p with
+  | xH => tl l
+  | xO q => skip_pos q (skip_pos q l)
+  | xI q => tl (skip_pos q (skip_pos q l))
+  end.
+Definition skipN (n:N) (l:bytes) : bytes := match n with N0 => l | Npos p => skip_pos p l end.
+
+(* copy [len] bytes starting [d] bytes back (d >= 1).
+   len <= d: the bytes out[d-len .. d-1] are simply put in front (cost: d - len steps + len);
+   len > d : the last d bytes repeat cyclically (cost: d + len). *)
+Definition copy_back (len d:N) (out:bytes) : option bytes :=
+  if len <=? d then
+    let n := N.to_nat len in
+    let seg := firstn n (skipN (d - len) out) in
+    if Nat.eqb (length seg) n then Some (seg ++ out) else None       (* distance too far back *)
+  else
+    let n := N.to_nat d in
+    let seg := firstn n out in
+    if Nat.eqb (length seg) n then let f := rev_append seg [] in Some (copy_cyc (N.to_nat len) f f out)
+    else None.
+
+(* ---------- compressed data of one block ---------- *)
+Fixpoint codes (fuel:nat) (lh dh:huff) (s:bs) (out:bytes) : res (bs * bytes) :=
+  match fuel with
+  | O => Bad
+  | S f =>
+    do (sym, s1) <- decode lh s;
+    if sym <? 256 then codes f lh dh s1 (sym :: out)
+    else if sym =? 256 then Ok (s1, out)
+    else
+      match nth_error ltab (N.to_nat (sym - 257)) with
+      | None => Bad                                     (* symbols 286, 287 *)
+      | Some (lb, le) =>
+        do (ev, s2) <- getbits (N.to_nat le) s1;
+        do (ds, s3) <- decode dh s2;
+        match nth_error dtab (N.to_nat ds) with
+        | None => Bad                                   (* distance symbols 30, 31 *)
+        | Some (db, de) =>
+          do (dv, s4) <- getbits (N.to_nat de) s3;
+          match copy_back (lb + ev) (db + dv) out with
+          | None => Bad
+          | Some out' => codes f lh dh s4 out'
+          end
+        end
+      end
+  end.
 
 Definition fixed_l : huff := build (repeat 8 144 ++ repeat 9 112 ++ repeat 7 24 ++ repeat 8 8).
-Definition fixed_d : huff := build (repeat 5 30).
+Definition fixed_d : huff := build (repeat 5 32).
 
-Fixpoint getbytes (k:nat) (s:bs) (out:bytes) : option (bs * bytes) :=
-  match k with O => Some (s, out) | S k' =>
-    match getbits 8 s with None => None | Some (b, s1) => getbytes k' s1 (b::out) end end.
+(* ---------- stored block: discard the partial byte, LEN, NLEN, LEN bytes ---------- *)
+Definition stored (s:bs) (out:bytes) : res (bs * bytes) :=
+  match rest s with
+  | l0 :: l1 :: n0 :: n1 :: r =>
+      let len := l0 + 256 * l1 in
+      let nlen := n0 + 256 * n1 in
+      if len + nlen =? 65535 then
+        match take (N.to_nat len) r with
+        | Some (d, r') => Ok (mkbs [] r', rev_append d out)
+        | None => More
+        end
+      else Bad
+  | _ => More
+  end.
 
-Definition stored (s:bs) (out:bytes) : option (bs * bytes) :=
-  match align s with None => None | Some s1 =>
-  match getbits 16 s1 with None => None | Some (len, s2) =>
-  match getbits 16 s2 with None => None | Some (nlen, s3) =>
-  if len + nlen =? 65535 then getbytes (N.to_nat len) s3 out else None end end end.
-
+(* ---------- dynamic block header ---------- *)
 Definition clorder : list nat := [16;17;18;0;8;7;9;6;10;5;11;4;12;3;13;2;14;1;15]%nat.
 
 Fixpoint set_nth (i:nat) (v:N) (l:list N) : list N :=
-  match l, i with [], _ => [] | _::r, O => v::r | x::r, S i' => x :: set_nth i' v r end.
+  match l, i with
+  | [], _ => []
+  | _ :: r, O => v :: r
+  | x :: r, S i' => x :: set_nth i' v r
+  end.
 
-Fixpoint read_cl (n:nat) (ord:list nat) (s:bs) (acc:list N) : option (bs * list N) :=
+Fixpoint read_cl (n:nat) (ord:list nat) (s:bs) (acc:list N) : res (bs * list N) :=
   match n, ord with
-  | O, _ => Some (s, acc)
-  | S n', o::r => match getbits 3 s with None => None | Some (v, s1) => read_cl n' r s1 (set_nth o v acc) end
-  | _, [] => None end.
+  | O, _ => Ok (s, acc)
+  | S n', o :: r => do (v, s1) <- getbits 3 s; read_cl n' r s1 (set_nth o v acc)
+  | S _, [] => Bad
+  end.
 
-(* read code lengths using the code-length code; acc is reversed *)
-Fixpoint read_lens (fuel:nat) (h:huff) (want:nat) (s:bs) (acc:list N) : option (bs * list N) :=
-  match fuel with O => None | S f =>
-  if Nat.leb want (length acc) then (if Nat.eqb want (length acc) then Some (s, rev acc) else None) else
-  match decode h s with None => None | Some (sym, s1) =>
-    if sym <? 16 then read_lens f h want s1 (sym::acc)
-    else if sym =? 16 then
-      match acc with [] => None | prev::_ =>
-        match getbits 2 s1 with None => None | Some (r, s2) => read_lens f h want s2 (repeat prev (3 + N.to_nat r) ++ acc) end end
-    else if sym =? 17 then
-        match getbits 3 s1 with None => None | Some (r, s2) => read_lens f h want s2 (repeat 0 (3 + N.to_nat r) ++ acc) end
+(* read [want] code lengths with the code-length code [h]; [n] = length acc; acc newest first *)
+Fixpoint read_lens (fuel:nat) (h:huff) (want:nat) (s:bs) (n:nat) (acc:list N) : res (bs * list N) :=
+  match fuel with
+  | O => Bad
+  | S f =>
+    if Nat.leb want n then Ok (s, rev_append acc [])
     else
-        match getbits 7 s1 with None => None | Some (r, s2) => read_lens f h want s2 (repeat 0 (11 + N.to_nat r) ++ acc) end
-  end end.
+      do (sym, s1) <- decode h s;
+      if sym <? 16 then read_lens f h want s1 (S n) (sym :: acc)
+      else if sym =? 16 then
+        match acc with
+        | [] => Bad
+        | prev :: _ =>
+          do (r, s2) <- getbits 2 s1;
+          let rep := (3 + N.to_nat r)%nat in
+          if Nat.ltb want (n + rep) then Bad
+          else read_lens f h want s2 (n + rep)%nat (repeat prev rep ++ acc)
+        end
+      else if sym =? 17 then
+        do (r, s2) <- getbits 3 s1;
+        let rep := (3 + N.to_nat r)%nat in
+        if Nat.ltb want (n + rep) then Bad
+        else read_lens f h want s2 (n + rep)%nat (repeat 0 rep ++ acc)
+      else
+        do (r, s2) <- getbits 7 s1;
+        let rep := (11 + N.to_nat r)%nat in
+        if Nat.ltb want (n + rep) then Bad
+        else read_lens f h want s2 (n + rep)%nat (repeat 0 rep ++ acc)
+  end.
 
-Definition dynamic (fuel:nat) (s:bs) (out:bytes) : option (bs * bytes) :=
-  match getbits 5 s with None => None | Some (hlit, s1) =>
-  match getbits 5 s1 with None => None | Some (hdist, s2) =>
-  match getbits 4 s2 with None => None | Some (hclen, s3) =>
-  let nlen := (N.to_nat hlit + 257)%nat in let ndist := (N.to_nat hdist + 1)%nat in
-  if (Nat.ltb 286 nlen || Nat.ltb 30 ndist)%bool then None else
-  match read_cl (N.to_nat hclen + 4) clorder s3 (repeat 0 19) with None => None | Some (s4, cl) =>
+Definition dynamic (fuel:nat) (s:bs) (out:bytes) : res (bs * bytes) :=
+  do (hlit, s1) <- getbits 5 s;
+  do (hdist, s2) <- getbits 5 s1;
+  do (hclen, s3) <- getbits 4 s2;
+  let nlen := (N.to_nat hlit + 257)%nat in
+  let ndist := (N.to_nat hdist + 1)%nat in
+  if (Nat.ltb 286 nlen || Nat.ltb 30 ndist)%bool then Bad else
+  do (s4, cl) <- read_cl (N.to_nat hclen + 4) clorder s3 (repeat 0 19);
   let clh := build cl in
-  match huff_ok clh with None => None | Some _ =>
-  match read_lens fuel clh (nlen + ndist) s4 [] with None => None | Some (s5, lens) =>
-  let ll := firstn nlen lens in let dl := skipn nlen lens in
-  if nth 256 ll 0 =? 0 then None else
-  codes fuel (build ll) (build dl) s5 out
-  end end end end end end.
+  if negb (huff_ok clh) then Bad else
+  do (s5, lens) <- read_lens (S (nlen + ndist)) clh (nlen + ndist) s4 0 [];
+  let lh := build (firstn nlen lens) in
+  let dh := build (skipn nlen lens) in
+  if (huff_ok lh && huff_ok dh)%bool then codes fuel lh dh s5 out else Bad.
 
-Fixpoint blocks (nblocks:nat) (fuel:nat) (s:bs) (out:bytes) : option (bs * bytes) :=
-  match nblocks with O => None | S nb =>
-  match getbits 1 s with None => None | Some (final, s1) =>
-  match getbits 2 s1 with None => None | Some (ty, s2) =>
-  let r := if ty =? 0 then stored s2 out
-           else if ty =? 1 then codes fuel fixed_l fixed_d s2 out
-           else if ty =? 2 then dynamic fuel s2 out else None in
-  match r with None => None | Some (s3, out') =>
-    if final =? 1 then Some (s3, out') else blocks nb fuel s3 out' end end end end.
+(* ---------- blocks ---------- *)
+Definition header (s:bs) : res (bool * N * bs) :=
+  do (fin, s1) <- getbit s;
+  do (ty, s2) <- getbits 2 s1;
+  Ok (fin, ty, s2).
+
+(* one block: (BFINAL, state after, output after) *)
+Definition block (fuel:nat) (s:bs) (out:bytes) : res (bool * bs * bytes) :=
+  do (fin, ty, s1) <- header s;
+  do (s2, out') <- (if ty =? 0 then stored s1 out
+                    else if ty =? 1 then codes fuel fixed_l fixed_d s1 out
+                    else if ty =? 2 then dynamic fuel s1 out
+                    else Bad);
+  Ok (fin, s2, out').
+
+Fixpoint blocks (n:nat) (fuel:nat) (s:bs) (out:bytes) : res (bs * bytes) :=
+  match n with
+  | O => Bad
+  | S n' =>
+    do (fin, s1, out1) <- block fuel s out;
+    if fin:bool then Ok (s1, out1) else blocks n' fuel s1 out1
+  end.
+
+Definition fuel_of (l:bytes) : nat := S (8 * length l).
+
+Inductive inflate_result : Type :=
+| Done (out:bytes) (consumed_bits:N)
+| NeedMore
+| Corrupt.
+
+Definition inflate_ext (l:bytes) : inflate_result :=
+  if bytes_okb l then
+    let f := fuel_of l in
+    match blocks f f (mkbs [] l) [] with
+    | Ok (s, out) => Done (rev_append out []) (8 * (blen l - blen (rest s)) - N.of_nat (length (cur s)))
+    | More => NeedMore
+    | Bad => Corrupt
+    end
+  else Corrupt.
 
 Definition inflate (l:bytes) : option bytes :=
-  let b := bits_of l in
-  let fuel := S (length b) in
-  match blocks fuel fuel {| bits := b; used := 0 |} [] with
-  | Some (_, out) => Some (rev out) | None => None end.
+  match inflate_ext l with Done out _ => Some out | _ => None end.
+
+(* ---------- stored-block "compressor" with sync flush (Go: flate.Writer at level 0, Write + Flush) ---------- *)
+Definition stored_block (c:bytes) : bytes :=
+  let n := blen c in
+  [0; n mod 256; n / 256; (65535 - n) mod 256; (65535 - n) / 256] ++ c.
+
+(* split into chunks of at most m elements *)
+Fixpoint chunks (m:nat) (fuel:nat) (d:bytes) : list bytes :=
+  match fuel with
+  | O => []
+  | S f => match d with
+           | [] => []
+           | _ => firstn m d :: chunks m f (skipn m d)
+           end
+  end.
+
+Definition chunk_max : nat := N.to_nat 65535.
+
+Definition sync_marker : bytes := [0;0;0;255;255].
+
+Definition deflate0 (d:bytes) : bytes :=
+  concat (map stored_block (chunks chunk_max (length d) d)) ++ sync_marker.
+
+(* what the websocket writer sends: the flushed stream without its last four bytes *)
+Definition trunc4 (z:bytes) : bytes := firstn (length z - 4) z.
+(* what the websocket reader appends: those four bytes and a final empty stored block *)
+Definition ws_tail : bytes := [0;0;255;255;1;0;0;255;255].
